@@ -29,7 +29,7 @@ WALL_BUDGET = {"quick": 1500, "thorough": 4 * 3600}
 
 
 def cases(seed, tier):
-    n = 30 if tier == "quick" else 640
+    n = 30 if tier == "quick" else 450
     out = []
     for k in range(n):
         rng = trees.rng_for(seed, PID, k)
